@@ -252,7 +252,7 @@ def run(res, tier="quick", seed=0, widen=False):
     res.rule = ("seeded random logical datasets: 1-3 key columns over <=4 labels with null rates 0/0.15/0.3, key kinds int/float/str/categorical(unused categories)/"
                 "datetime/bool, numpy or pandas (arbitrary duplicated index) containers; values f8 (dyadic, exact regime)/i8 (incl. > 2^53)/bool/datetime64/timedelta64 "
                 "with forced all-null groups; masks none/bool/all-false/whole-group-out/slice(neg bounds)/positions(sorted or with repeats and negatives); "
-                "8 reductions; oracle = extracted spec_reduce on the logical codes; non-trivial = >= 2 groups or a null key/value or a mask; distinct = canonical case")
+                "8 reductions; oracle = extracted spec_reduce on the logical codes; plus a temporal-mean stream (present-day / pre-1970 ns timestamps, +-2^62 durations, wide int64, margins, transform, strategies) against the exact rational mean and the extracted 64-bit model; non-trivial = >= 2 groups or a null key/value or a mask; distinct = canonical case")
     cases = [gen_case(rng, tier) for _ in range(n_cases)]
     # corpus: the findings this check was built around
     cases.insert(0, dict(keycols=[[2, 1, 2, 1, 3]], kinds=["int"], dt="f8", vals=[Fraction(1), None, Fraction(2), None, Fraction(5)],
